@@ -4,23 +4,48 @@ import Lattigo.Props.C01Ring
 import Lattigo.Props.C01Tie
 import Lattigo.Props.C01Aut
 import Lattigo.Props.C01CI
+import Lattigo.Props.C01QP
 /-!
 # C01 — RNS ring arithmetic equals exact arithmetic in Z_Q[X]/(X^N+1)
 
 Property theorems live in
 * `Lattigo.Props.C01Words` — word level (Montgomery/Barrett reductions, butterflies) and the 38
-  lane kernels, all about the definitions REGENERATED from /repo/ring by tools/go2lean;
-* `Lattigo.Props.C01NTT` — range invariant and semantics of the lazy NTT model (when present it is
-  imported below).
+  lane kernels, all about the definitions REGENERATED from /repo/ring by tools/go2lean: congruence and documented
+  output range of every flavour, for all uint64 inputs in the stated ranges (clauses "coefficient-wise
+  add/sub/neg/multiply in all Barrett/Montgomery/lazy flavours", "lying in the output range it documents").
+* `Lattigo.Props.C01NTT` — the lazy NTT model of `Model/NTT.lean` (tied limb for limb, lazy limbs included):
+  no-wrap invariant at every node and documented ranges for inputs `< 2q`, both ring types (`ntt_range`,
+  `ntt_range_ci`, `intt_range`, `intt_range_ci`); semantics `fwd_sem`/`ntt_eval` (evaluation at `ψ^(2·brv(t)+1)`),
+  `ntt_mul`, `intt_ntt` (standard ring); `ntt_ci_sem` (evaluation of `a_0 + Σ a_m (X^m + X^-m)` at the roots
+  `x_t`, `x_t^N = ρ_1`, `ρ_1² = −1`), `intt_ntt_ci`; all instantiated on the tables the code generates
+  (`tables_invariant`, `tables_invariant_ci`); `8q ≤ 2^64` is necessary (`ntt_range_needs_8q_counterexample`).
 * `Lattigo.Props.C01Ring` — the abstract layer: `RPoly` (canonical RNS polynomials, the carrier the
   scheme-level models of C03/C04/C14/C16/C20 are executed on) IS the commutative ring
   Π_i Z_{q_i}[X]/(X^N+1), and the word-level NTT/Montgomery kernels implement its operations
-  (`refine_mul`, `words_ring`, `words_poly_ring`).
+  (`refine_mul`, `words_ring`, `words_poly_ring`); `row_aut`, `row_monomial`.
 * `Lattigo.Props.C01Tie` — the hand-written wrapper table `Vec.op` agrees with the SubRing wrappers
   REGENERATED from ring/subring_ops.go (`vecOp_table`); the unrolled kernel loop, executed
   sequentially under any aliasing of its slices, is the pointwise map of the kernel's lane
   (`kernel_loop_spec`, `kernel_loop_map3`).
 * `Lattigo.Props.C01Aut` — closed form of the REGENERATED `AutomorphismNTTIndex` (`autIndex_spec`),
-  `NTT(σ_g a) = NTT(a) ∘ index` (`autNTT_spec`), `σ_g σ_h = σ_{gh}` (`aut_comp`).
+  `NTT(σ_g a) = NTT(a) ∘ index` (`autNTT_spec`, standard ring), `σ_g σ_h = σ_{gh}` (`aut_comp`).
+* `Lattigo.Props.C01CI` — which rings are constructed (`accept_iff`), accepted ⇒ `ψ` primitive
+  (`accept_psi_primitive`) ⇒ valid tables (`accept_tables_std/ci`), refused ⇒ no primitive root exists
+  (`refused_no_primitive_root`).
+* `Lattigo.Props.C01QP` — `ringqp.Ring.MulRNSScalarMontgomery` on every level view (`qp_mulRNSScalar_view`), the
+  coefficient-domain automorphism of the conjugate-invariant ring (`aut_ci_restriction`, `aut_ci_closed`,
+  `aut_ci_sem`), the conjugate-invariant forward transform on LARGE inputs (`ntt_ci_big`, `ntt_ci_unreduced`).
+
+Status by clause of the property text (details: /verif/design/C01.md):
+* proved for all inputs: the word/lane kernels; both forward and both inverse transforms (no wrap, range, exact
+  semantics, `INTT∘NTT = id`); `NTT(a)·NTT(b) = NTT(a·b)` for the STANDARD ring; automorphisms: coefficient domain both
+  ring types, NTT domain standard ring; acceptance of moduli; R_QP scalar layout.
+* tied only (model = code on the explored inputs): `Ring`-level scalar operations (`ringop`), `MultByMonomial`
+  (`rpmono`; `row_monomial` is about the model), the inverse conjugate-invariant transform on inputs `≥ 2q`.
+* probed only (exact references on the real code, harness/c01*.go): the product theorem of the conjugate-invariant
+  transform (`ntt_mul_lazy`, `ctor_mul`), RNS scalars `ring/scalar.go` (`rns_scalar_ref`, `ringqp_scalar`), the
+  NTT-domain automorphism of the conjugate-invariant ring (`history`, `ci_gal3mod4`), independence of rings
+  (`history*`), lazy accumulation chains (`lazy_chain`).
+* not covered: `ring/ringqp` basis-extension helpers (C02), samplers (C17), `ring.Poly` serialisation (C08).
 This module collects them so that `lake build Lattigo.Props.C01` checks all of C01.
 -/
